@@ -204,6 +204,12 @@ def discharge(fx, site):
             lv, hv = const_val(fx, lo), const_val(fx, hi)
             if lv is not None and hv is not None and lv <= hv:
                 return "constant bounds %s <= %s" % (lv, hv)
+            # lo = min(_, d), hi = max(_, d) over a common d  =>  lo <= d <= hi
+            if lo[0] == "call" and hi[0] == "call" and (lo[4] or "").endswith("Ord::min") and (hi[4] or "").endswith("Ord::max"):
+                la = [sym.norm(sym.strip(x)) for x in lo[2]]
+                ha = [sym.norm(sym.strip(x)) for x in hi[2]]
+                if any(x in ha for x in la):
+                    return "bounds are min(_, d) and max(_, d) of a common d, hence ordered"
             return None
         if site.what in ("chunks", "chunks_exact", "windows", "step_by"):
             n = sym.strip(prov.op(t["args"][1]))
